@@ -8,6 +8,7 @@
 //!       | get <id> | pipe <pipe> | prep <id> <manual> <idframe> <message>
 //!   env renc|rdec|denc|ddec <message>
 //!   backoff <attempts> <base_ms> <max_ms>
+//!   stash new | pipe <id> <cap> | put <id> <message> | recv | recvmp | dereg <id>
 
 use crate::*;
 use futures::executor::block_on;
@@ -18,11 +19,19 @@ pub struct State {
   trie: VTrie,
   lb: VLoadBalancer,
   map: VRouterMap,
+  stash: VAnonIngress,
+  stash_senders: std::collections::BTreeMap<usize, VAnonSender>,
 }
 
 impl Default for State {
   fn default() -> Self {
-    Self { trie: VTrie::new(), lb: VLoadBalancer::new(), map: VRouterMap::new() }
+    Self {
+      trie: VTrie::new(),
+      lb: VLoadBalancer::new(),
+      map: VRouterMap::new(),
+      stash: VAnonIngress::new(64),
+      stash_senders: Default::default(),
+    }
   }
 }
 
@@ -32,6 +41,44 @@ fn b(v: bool) -> String {
 
 pub fn run_op(st: &mut State, p: &[&str]) -> String {
   match p[0] {
+    "stash" => match p[1] {
+      "new" => {
+        st.stash_senders.clear();
+        st.stash = VAnonIngress::new(64);
+        "ok".into()
+      }
+      "pipe" => {
+        let id: usize = p[2].parse().unwrap();
+        let s = st.stash.register_pipe(id, p[3].parse().unwrap());
+        st.stash_senders.insert(id, s);
+        "ok".into()
+      }
+      "put" => match st.stash_senders.get(&p[2].parse::<usize>().unwrap()) {
+        Some(s) => {
+          if s.try_send(to_frame_batch(parse_message(p[3]))) {
+            "ok".into()
+          } else {
+            "refused".into()
+          }
+        }
+        None => "no-pipe".into(),
+      },
+      "recv" => match block_on(st.stash.recv_now()) {
+        Ok(m) => show_frame(&m),
+        Err(e) => format!("E({})", err_class(&e)),
+      },
+      "recvmp" => match block_on(st.stash.recv_multipart_now()) {
+        Ok(fb) => format!("[{}]", show_frames(fb.iter())),
+        Err(e) => format!("E({})", err_class(&e)),
+      },
+      "dereg" => {
+        let id: usize = p[2].parse().unwrap();
+        st.stash.deregister_pipe(id);
+        st.stash_senders.remove(&id);
+        "ok".into()
+      }
+      _ => "bad-op".into(),
+    },
     "trie" => match p[1] {
       "new" => {
         st.trie = VTrie::new();
